@@ -9,6 +9,7 @@ package remote
 
 import (
 	"encoding/json"
+	"errors"
 	"fmt"
 	"strings"
 	"testing"
@@ -24,6 +25,21 @@ func c16Incoherent(err error) string {
 	}
 	var se *exterrors.SMTPError
 	if !asSMTP(err, &se) {
+		// an error that carries its reply in fields (the aggregate of the all-or-nothing body path)
+		var fe interface{ Fields() map[string]interface{} }
+		if errors.As(err, &fe) {
+			// the fields are computed on every call, possibly from a map of per-recipient
+			// errors: read them repeatedly so that both iteration orders of a two-entry
+			// map are seen (each call picks one; 64 calls miss one with probability 2^-63)
+			for i := 0; i < 64; i++ {
+				f := fe.Fields()
+				code, _ := f["smtp_code"].(int)
+				ench, _ := f["smtp_enchcode"].(exterrors.EnhancedCode)
+				if code != 0 && ench[0] != 0 && code/100 != ench[0] {
+					return fmt.Sprintf("fields give basic code %d with enhanced code %d.%d.%d", code, ench[0], ench[1], ench[2])
+				}
+			}
+		}
 		return ""
 	}
 	code, ench := se.Code, se.EnhancedCode
@@ -49,7 +65,7 @@ func TestVerifC16Remote(t *testing.T) {
 	log.DefaultLogger.Out = log.NopOutput{}
 	r := vx.Start("C16", "remote")
 	defer r.Finish()
-	r.Rule("real remote target in front of 1-2 scripted MX candidates, each either healthy or failing in one of {down, EHLO 421, EHLO 554, MAIL 451/550, RCPT 450/550, DATA 451/554, connection dropped at DATA, no STARTTLS, self-signed certificate, not listed in the MTA-STS policy, TLSA mismatch, TLSA SERVFAIL}; configurations {no policy, mtasts, dane, local_policy authenticated/mtasts, all}; message flag {none, REQUIRETLS}; oracle: every error returned by AddRcpt or set as per-recipient status has basic code class = enhanced code class = temporary marker, also after exterrors.SMTPCode / SMTPEnchCode. Non-trivial: distinct cases that produced at least one error")
+	r.Rule("real remote target in front of 1-2 scripted MX candidates, each either healthy or failing in one of {down, EHLO 421, EHLO 554, MAIL 451/550, RCPT 450/550, DATA 451/554, connection dropped at DATA, no STARTTLS, self-signed certificate, not listed in the MTA-STS policy, TLSA mismatch, TLSA SERVFAIL}; configurations {no policy, mtasts, dane, local_policy authenticated/mtasts, all}; message flag {none, REQUIRETLS}; plus one message to two domains through the all-or-nothing body path (data answered ok / 451 / 554 / dropped per domain, the aggregate's fields read 64 times to see both iteration orders of its error map); oracle: every error returned by AddRcpt or Body or set as per-recipient status has basic code class = enhanced code class = temporary marker, also after exterrors.SMTPCode / SMTPEnchCode. Non-trivial: distinct cases that produced at least one error")
 	type rc struct {
 		Case c05Case `json:"case"`
 	}
@@ -152,6 +168,18 @@ func TestVerifC16Remote(t *testing.T) {
 					}
 				}
 			}
+		}
+	}
+	// the all-or-nothing body path: one message to two domains whose MX servers answer the
+	// data differently; the aggregate error is built from a map of per-recipient errors, its
+	// fields are read 64 times per error (see c16Incoherent)
+	bodyShapes := []c05MX{shapes[0]}
+	for _, f := range []string{"data451", "data554", "dropdata", "rcpt450"} {
+		bodyShapes = append(bodyShapes, c05MX{TLS: "valid", TLSA: "none", AD: true, Listed: true, Ext: true, Fault: f})
+	}
+	for _, m1 := range bodyShapes {
+		for _, m2 := range bodyShapes {
+			emit(c05Case{Cfg: cfgs[0], Dom: []c05Dom{{MXAD: true, MX: []c05MX{m1}}, {MXAD: true, MX: []c05MX{m2}}}, Hist: []c05Msg{{Flag: "atomic", Doms: []int{0, 1}}}})
 		}
 	}
 	r.Bound("cases_enumerated", idx)
